@@ -136,6 +136,11 @@ type site struct {
 	note    string
 	callees []*ssa.Function // call / go
 	acq     int             // acquire
+	// fresh-receiver propagation: the access goes through the function's own
+	// receiver (viaRecv); the call is a static method call whose receiver is an
+	// object allocated in the caller and not published by it (recvFresh) or the
+	// caller's own receiver (recvPass)
+	viaRecv, recvFresh, recvPass bool
 }
 
 type fnInfo struct {
@@ -736,7 +741,18 @@ func (a *analysis) applyCall(fi *fnInfo, st relState, ins ssa.Instruction, c *ss
 	}
 	cs := a.calleesOf(fi.fn, ins, c)
 	if rec != nil && len(cs) > 0 {
-		rec(site{kind: siteCall, st: st, pos: ins.Pos(), callees: cs})
+		cst := site{kind: siteCall, st: st, pos: ins.Pos(), callees: cs}
+		if f := c.StaticCallee(); f != nil && !c.IsInvoke() && len(cs) == 1 && cs[0] == f && f.Signature.Recv() != nil && len(c.Args) > 0 {
+			if _, isCall := ins.(*ssa.Call); isCall { // not for deferred calls
+				switch r := c.Args[0].(type) {
+				case *ssa.Alloc:
+					cst.recvFresh = r.Heap && unpublished(r)
+				case *ssa.Parameter:
+					cst.recvPass = fi.fn.Signature.Recv() != nil && len(fi.fn.Params) > 0 && r == fi.fn.Params[0]
+				}
+			}
+		}
+		rec(cst)
 	}
 	if len(cs) == 0 {
 		return st
@@ -804,6 +820,7 @@ func (a *analysis) analyze(fi *fnInfo, rec func(site)) bool {
 				st = a.transfer(fi, st, ins, nil)
 			}
 			tryID := a.tryLockCond(b)
+			nilID, nilEdge := a.nilGuardedLock(b)
 			for si, s := range b.Succs {
 				old := fi.in[s]
 				sst := st
@@ -811,6 +828,9 @@ func (a *analysis) analyze(fi *fnInfo, rec func(site)) bool {
 					sst = sst.acquire(tryID)
 				} else if tryID <= -2 && si == 1 {
 					sst = sst.acquire(-tryID - 2)
+				}
+				if nilID >= 0 && si == nilEdge {
+					sst = sst.acquire(nilID)
 				}
 				nw := join(old, sst)
 				if nw != old {
@@ -883,6 +903,61 @@ func (a *analysis) tryLockCond(b *ssa.BasicBlock) int {
 	return id
 }
 
+// nilGuardedLock recognises `if mu != nil { mu.Lock(); defer mu.Unlock() }`
+// (also RLock, and `if mu == nil {} else {...}`): the lock is taken whenever
+// there is one.  By the convention of that idiom a nil mutex means "object not
+// shared yet", so the branch that skips the lock is treated as holding it too
+// (id = the lock taken in the other branch, edge = index of the skipping
+// successor); -1 if the block does not end that way.
+func (a *analysis) nilGuardedLock(b *ssa.BasicBlock) (id, edge int) {
+	if len(b.Instrs) == 0 || len(b.Succs) != 2 {
+		return -1, 0
+	}
+	iff, ok := b.Instrs[len(b.Instrs)-1].(*ssa.If)
+	if !ok {
+		return -1, 0
+	}
+	cmp, ok := iff.Cond.(*ssa.BinOp)
+	if !ok || (cmp.Op != token.NEQ && cmp.Op != token.EQL) {
+		return -1, 0
+	}
+	v := cmp.X
+	if c, isConst := cmp.Y.(*ssa.Const); !isConst || !c.IsNil() {
+		if c, isConst = cmp.X.(*ssa.Const); !isConst || !c.IsNil() {
+			return -1, 0
+		}
+		v = cmp.Y
+	}
+	pt, ok := v.Type().Underlying().(*types.Pointer)
+	if !ok {
+		return -1, 0
+	}
+	if tn := pt.Elem().String(); tn != "sync.Mutex" && tn != "sync.RWMutex" {
+		return -1, 0
+	}
+	name := a.resolveLock(v)
+	if name == "" {
+		return -1, 0
+	}
+	locking := 0 // successor taken when the mutex is there
+	if cmp.Op == token.EQL {
+		locking = 1
+	}
+	for _, ins := range b.Succs[locking].Instrs {
+		call, ok := ins.(*ssa.Call)
+		if !ok || len(call.Call.Args) == 0 || a.resolveLock(call.Call.Args[0]) != name {
+			continue
+		}
+		switch lockOpOf(call.Common()) {
+		case opLock:
+			return lmID(lm{name, true}), 1 - locking
+		case opRLock:
+			return lmID(lm{name, false}), 1 - locking
+		}
+	}
+	return -1, 0
+}
+
 // ---------------------------------------------------------------- accesses
 
 // baseFresh: the address is derived from an object allocated in this function.
@@ -900,6 +975,96 @@ func baseFresh(v ssa.Value) bool {
 		}
 	}
 	return false
+}
+
+// recvBased: the address (or the value loaded from a field) designates memory
+// inside the object the function's receiver points to, without following a
+// pointer stored in it.
+func recvBased(v ssa.Value, fn *ssa.Function) bool {
+	if fn == nil || fn.Signature.Recv() == nil || len(fn.Params) == 0 {
+		return false
+	}
+	for i := 0; i < 20; i++ {
+		switch x := v.(type) {
+		case *ssa.FieldAddr:
+			v = x.X
+		case *ssa.IndexAddr:
+			if fa := loadedFrom(x.X); fa != nil {
+				v = fa
+				continue
+			}
+			v = x.X
+		case *ssa.UnOp:
+			// the value of a field of the receiver (a map, slice, interface
+			// stored in it): only as the first step
+			if fa, ok := x.X.(*ssa.FieldAddr); ok && x.Op == token.MUL && i == 0 {
+				v = fa
+				continue
+			}
+			return false
+		case *ssa.Parameter:
+			return x == fn.Params[0]
+		default:
+			return false
+		}
+	}
+	return false
+}
+
+// unpublished: the object allocated by al is, within the allocating function,
+// only initialised, handed to its own methods as their receiver and returned;
+// it is not stored anywhere, passed as an ordinary argument, captured by a
+// closure or given to a goroutine.
+func unpublished(al *ssa.Alloc) bool {
+	if al.Referrers() == nil {
+		return false
+	}
+	onlyReturned := func(v ssa.Value) bool {
+		if v.Referrers() == nil {
+			return false
+		}
+		for _, r := range *v.Referrers() {
+			switch x := r.(type) {
+			case *ssa.Return, *ssa.DebugRef:
+			case *ssa.Store:
+				// a named result kept in memory because the function defers
+				// (a local that no closure captures: not a heap cell)
+				if res, ok := x.Addr.(*ssa.Alloc); !ok || res.Heap {
+					return false
+				}
+			default:
+				return false
+			}
+		}
+		return true
+	}
+	for _, r := range *al.Referrers() {
+		switch x := r.(type) {
+		case *ssa.FieldAddr, *ssa.IndexAddr, *ssa.Return, *ssa.DebugRef:
+		case *ssa.Store:
+			if x.Val == ssa.Value(al) {
+				return false
+			}
+		case *ssa.MakeInterface:
+			if !onlyReturned(x) {
+				return false
+			}
+		case *ssa.Call:
+			c := x.Common()
+			f := c.StaticCallee()
+			if c.IsInvoke() || f == nil || f.Signature.Recv() == nil || len(c.Args) == 0 || c.Args[0] != ssa.Value(al) {
+				return false
+			}
+			for _, arg := range c.Args[1:] {
+				if arg == ssa.Value(al) {
+					return false
+				}
+			}
+		default:
+			return false
+		}
+	}
+	return true
 }
 
 // loadedFrom: v is the value loaded from a struct field; returns the FieldAddr.
@@ -1108,11 +1273,13 @@ func insPos(ins ssa.Instruction) token.Pos {
 }
 
 func (a *analysis) accesses(fi *fnInfo, st relState, ins ssa.Instruction, rec func(site)) {
+	var via ssa.Value // the address / loaded value the access goes through
 	emit := func(k string, w bool, note string) {
-		rec(site{kind: siteAccess, st: st, pos: insPos(ins), field: k, write: w, note: note})
+		rec(site{kind: siteAccess, st: st, pos: insPos(ins), field: k, write: w, note: note, viaRecv: via != nil && recvBased(via, fi.fn)})
 	}
 	switch x := ins.(type) {
 	case *ssa.Store:
+		via = x.Addr
 		for _, k := range a.addrTargets(x.Addr) {
 			emit(k, true, "store")
 		}
@@ -1121,6 +1288,7 @@ func (a *analysis) accesses(fi *fnInfo, st relState, ins ssa.Instruction, rec fu
 		}
 	case *ssa.UnOp:
 		if x.Op == token.MUL {
+			via = x.X
 			for _, k := range a.addrTargets(x.X) {
 				emit(k, false, "load")
 			}
@@ -1129,22 +1297,27 @@ func (a *analysis) accesses(fi *fnInfo, st relState, ins ssa.Instruction, rec fu
 			}
 		}
 	case *ssa.MapUpdate:
+		via = x.Map
 		if k := a.guardedLoad(x.Map); k != "" {
 			emit(k, true, "map-update")
 		}
 	case *ssa.Lookup:
+		via = x.X
 		if k := a.guardedLoad(x.X); k != "" {
 			emit(k, false, "lookup")
 		}
 	case *ssa.Range:
+		via = x.X
 		if k := a.guardedLoad(x.X); k != "" {
 			emit(k, false, "range")
 		}
 	case *ssa.Index:
+		via = x.X
 		if k := a.guardedLoad(x.X); k != "" {
 			emit(k, false, "index")
 		}
 	case *ssa.Slice:
+		via = x.X
 		if k := a.guardedLoad(x.X); k != "" {
 			emit(k, false, "slice")
 		}
@@ -1155,11 +1328,13 @@ func (a *analysis) accesses(fi *fnInfo, st relState, ins ssa.Instruction, rec fu
 // fields (builtins delete/clear/copy/len/cap/append; methods named as mutators)
 // and guarded field addresses passed to calls.
 func (a *analysis) callAccesses(fi *fnInfo, st relState, ins ssa.Instruction, c *ssa.CallCommon, rec func(site)) {
+	var via ssa.Value
 	emit := func(k string, w bool, note string) {
-		rec(site{kind: siteAccess, st: st, pos: insPos(ins), field: k, write: w, note: note})
+		rec(site{kind: siteAccess, st: st, pos: insPos(ins), field: k, write: w, note: note, viaRecv: via != nil && recvBased(via, fi.fn)})
 	}
 	if b, ok := c.Value.(*ssa.Builtin); ok {
 		for i, arg := range c.Args {
+			via = arg
 			if k := a.guardedLoad(arg); k != "" {
 				w := false
 				switch b.Name() {
@@ -1187,11 +1362,13 @@ func (a *analysis) callAccesses(fi *fnInfo, st relState, ins ssa.Instruction, c 
 	args := c.Args
 	if c.IsInvoke() {
 		// the field holds an interface: the object behind it synchronises itself
+		via = c.Value
 		if k := a.guardedLoad(c.Value); k != "" {
 			emit(k, false, "method-"+name)
 		}
 	}
 	for i, arg := range args {
+		via = arg
 		if k := a.guardedLoad(arg); k != "" {
 			// receiver (first argument of a method call) or plain argument
 			isRecv := i == 0 && !c.IsInvoke() && isMethod
@@ -1632,14 +1809,17 @@ func main() {
 	type ctxKey struct {
 		fn    *ssa.Function
 		entry set
+		fresh bool // the receiver is an object its constructor has not published yet
 	}
 	accs := map[string]*accessOut{}
 	ords := map[string]*orderOut{}
 	reachedFns := map[*ssa.Function]bool{}
 	unbalanced := map[string]string{}
+	freshCalls := map[string]string{}   // helper methods entered on an unpublished receiver
+	freshSkipped := map[string]string{} // accesses skipped there
 	for _, r := range roots {
 		seen := map[ctxKey]bool{}
-		work := []ctxKey{{r.fn, r.entry}}
+		work := []ctxKey{{r.fn, r.entry, false}}
 		if fi := a.fns[r.fn]; fi != nil && fi.exit.ok && (!fi.exit.add.empty() || !fi.exit.rem.empty()) {
 			unbalanced[a.fnName(r.fn)] = a.posStr(r.fn.Pos())
 		}
@@ -1660,7 +1840,11 @@ func main() {
 				switch s.kind {
 				case siteCall:
 					for _, g := range s.callees {
-						work = append(work, ctxKey{g, h})
+						fresh := s.recvFresh || (s.recvPass && c.fresh)
+						if fresh {
+							freshCalls[a.fnName(g)] = a.posStr(s.pos)
+						}
+						work = append(work, ctxKey{g, h, fresh})
 					}
 				case siteGo:
 					// separate thread: a root of its own (found by findRoots)
@@ -1674,6 +1858,11 @@ func main() {
 						}
 					}
 				case siteAccess:
+					if c.fresh && s.viaRecv {
+						// initialisation of an object that no other thread can reach yet
+						freshSkipped[s.field+"@"+a.fnName(c.fn)] = a.posStr(s.pos)
+						continue
+					}
 					o := &accessOut{Root: r.name, Fn: a.fnName(c.fn), Field: s.field, Write: s.write, Pos: a.posStr(s.pos), Note: s.note, held: h}
 					for _, id := range h.elems() {
 						x := lmByID[id]
@@ -1839,7 +2028,7 @@ func main() {
 		rn = append(rn, r.name+" = "+a.fnName(r.fn))
 	}
 	js := map[string]any{"known_keys": known, "accesses": al, "lock_order": ol, "unresolved": unres, "roots": rn,
-		"address_escapes": a.addrEscapes, "atomic_fields": atomicFields, "functions_reached": len(reachedFns), "functions_total": len(a.order), "guarded_fields": len(guards)}
+		"address_escapes": a.addrEscapes, "atomic_fields": atomicFields, "fresh_receiver_helpers": freshCalls, "fresh_receiver_accesses_skipped": freshSkipped, "functions_reached": len(reachedFns), "functions_total": len(a.order), "guarded_fields": len(guards)}
 	os.MkdirAll(filepath.Join(verif, "work"), 0o755)
 	f, err := os.Create(filepath.Join(verif, "work", "locktable.json"))
 	if err == nil {
